@@ -12,6 +12,7 @@ import ast
 
 from ..core.flow import call_name, calls_in, is_name, propagate_unverified, node_calls
 from ..core.loader import AnalysisError, short, own_nodes, norm
+from ..core.minieval import Unsupported, Raised
 from ..core.report import where
 from ..specs.evm import COMMUTATIVE
 
@@ -192,29 +193,6 @@ def rule_c(ctx, out):
                 out.ok({"are_equals": k, "lists": f"{loc}_dependences of both specifications"})
             else:
                 out.bad(f"are_equals:wrong-dependence-list:{loc}", f"the {loc} comparison is not given the {loc}_dependences lists", where(f, call))
-    # compare_variables: disasm compared, value compared when present, all inputs compared
-    cv = ctx.func(f"{V}.compare_variables")
-    txt = norm(cv.node)
-    for what, pat in (("disasm", "elem_origin['disasm'] != elem_opt['disasm']"), ("value", "elem_origin['value'] == elem_opt['value']"),
-                      ("inputs", "compare_variables(inpt_origin[j], inpt_opt[j]"), ("integers", "is_integer(var_origin) and var_origin != var_opt"),
-                      ("source-stack variables", "var_origin in src_origin and var_origin != var_opt")):
-        if pat in txt:
-            out.ok({"compare_variables": what})
-        else:
-            out.bad(f"compare_variables:not-compared:{what}", f"compare_variables no longer compares {what}", where(cv))
-    # compare_target_stack: lengths and every position
-    ct = ctx.func(f"{V}.compare_target_stack")
-    t2 = norm(ct.node)
-    if "len(tgt_origin) != len(tgt_opt)" in t2 and "compare_variables(tgt_origin[i], tgt_opt[i]" in t2:
-        out.ok({"compare_target_stack": "length and every position"})
-    else:
-        out.bad("compare_target_stack:incomplete", "compare_target_stack does not compare length and every position", where(ct))
-    cs = ctx.func(f"{V}.compare_storage_userdef_ins")
-    t3 = norm(cs.node)
-    if t3.count("len(") >= 4 and "search_val_in_userdef" in t3:
-        out.ok({"compare_storage_userdef_ins": "counts and every store/load record"})
-    else:
-        out.bad("compare_storage_userdef_ins:incomplete", "store/load records are no longer matched one by one", where(cs))
 
 
 def rule_d(ctx, out):
@@ -430,13 +408,167 @@ def rule_h(ctx, out):
         raise AnalysisError(f"only {n} memory-store predicates found in the verification module")
 
 
+def _spec(term_list, stores=(), mem_deps=(), sto_deps=()):
+    """A small specification: the target stack holds the given terms; stores = [(opcode, address term, value term)]."""
+    from ..core import ctxrules as cr
+    recs, memo, counter, idc, tgt = [], {}, [3], {}, []
+
+    def go(t):
+        if isinstance(t, int):
+            return t
+        if isinstance(t, str):
+            return cr.VARNAME[t]
+        if t in memo:
+            return memo[t]
+        ins = [go(c) for c in t[1:]]
+        v = f"s({counter[0]})"
+        counter[0] += 1
+        k = idc.get(t[0], 0)
+        idc[t[0]] = k + 1
+        recs.append({"id": f"{t[0]}_{k}", "opcode": "00", "disasm": t[0], "inpt_sk": ins, "outpt_sk": [v], "push": False, "gas": 3,
+                     "commutative": t[0] in cr.COMM, "storage": False, "size": 1})
+        memo[t] = v
+        return v
+    for t in term_list:
+        tgt.append(go(t))
+    for op, a, v in stores:
+        k = idc.get(op, 0)
+        idc[op] = k + 1
+        recs.append({"id": f"{op}_{k}", "opcode": "00", "disasm": op, "inpt_sk": [go(a), go(v)], "outpt_sk": [], "push": False, "gas": 3, "commutative": False,
+                     "storage": True, "size": 1})
+    return {"src_ws": ["s(0)", "s(1)", "s(2)"], "tgt_ws": tgt, "user_instrs": recs, "storage_dependences": [list(d) for d in sto_deps],
+            "memory_dependences": [list(d) for d in mem_deps]}
+
+
+def _renamed(spec):
+    """The same specification with other names for the computed variables and the records listed in reverse order."""
+    import copy
+    import re
+
+    def ren(v):
+        m = re.fullmatch(r"s\((\d+)\)", v) if isinstance(v, str) else None
+        return f"s({int(m.group(1)) + 20})" if m and int(m.group(1)) >= 3 else v
+    out = copy.deepcopy(spec)
+    out["tgt_ws"] = [ren(v) for v in out["tgt_ws"]]
+    for r in out["user_instrs"]:
+        r["inpt_sk"] = [ren(v) for v in r["inpt_sk"]]
+        r["outpt_sk"] = [ren(v) for v in r["outpt_sk"]]
+    out["user_instrs"].reverse()
+    return out
+
+
+def _mutations(spec):
+    """(label, mutated copy) — each changes what the block computes in exactly one component."""
+    import copy
+    for i, v in enumerate(spec["tgt_ws"]):
+        m = copy.deepcopy(spec)
+        m["tgt_ws"][i] = "s(1)" if v != "s(1)" else "s(0)"
+        yield f"target-element", m
+    if len(spec["tgt_ws"]) >= 2 and spec["tgt_ws"][0] != spec["tgt_ws"][1]:
+        m = copy.deepcopy(spec)
+        m["tgt_ws"][0], m["tgt_ws"][1] = m["tgt_ws"][1], m["tgt_ws"][0]
+        yield "target-order", m
+    m = copy.deepcopy(spec)
+    m["tgt_ws"] = m["tgt_ws"] + ["s(0)"]
+    yield "target-length", m
+    m = copy.deepcopy(spec)
+    m["src_ws"] = m["src_ws"][:-1]
+    yield "source-stack", m
+    SIB = {"ADD": "SUB", "SUB": "ADD", "MUL": "DIV", "DIV": "MUL", "AND": "OR", "OR": "AND", "LT": "GT", "GT": "LT", "MLOAD": "SLOAD", "SLOAD": "MLOAD",
+           "ISZERO": "NOT", "NOT": "ISZERO", "MSTORE": "MSTORE8", "MSTORE8": "MSTORE", "SSTORE": "MSTORE", "KECCAK256": "SUB", "EQ": "LT"}
+    for k, r in enumerate(spec["user_instrs"]):
+        if r["disasm"] in SIB:
+            m = copy.deepcopy(spec)
+            m["user_instrs"][k]["disasm"] = SIB[r["disasm"]]
+            m["user_instrs"][k]["commutative"] = SIB[r["disasm"]] in ("ADD", "MUL", "AND", "OR", "EQ", "XOR")
+            yield ("store-opcode" if r["storage"] else "opcode"), m
+        if len(r["inpt_sk"]) == 2 and not r["commutative"] and r["inpt_sk"][0] != r["inpt_sk"][1]:
+            m = copy.deepcopy(spec)
+            m["user_instrs"][k]["inpt_sk"].reverse()
+            yield ("store-operands-swapped" if r["storage"] else "non-commutative-operands-swapped"), m
+        for j, x in enumerate(r["inpt_sk"]):
+            m = copy.deepcopy(spec)
+            m["user_instrs"][k]["inpt_sk"][j] = (x + 1) if isinstance(x, int) else ("s(2)" if x != "s(2)" else "s(1)")
+            yield ("store-operand" if r["storage"] else "constant-operand" if isinstance(x, int) else "operand"), m
+        if r["storage"]:
+            m = copy.deepcopy(spec)
+            del m["user_instrs"][k]
+            yield "store-missing", m
+            m = copy.deepcopy(spec)
+            m["user_instrs"].append(copy.deepcopy(r))
+            m["user_instrs"][-1]["id"] = r["disasm"] + "_9"
+            yield "store-duplicated", m
+    for key in ("memory_dependences", "storage_dependences"):
+        if spec[key]:
+            m = copy.deepcopy(spec)
+            m[key] = m[key][1:]
+            yield "dependence-missing", m
+
+
+CHECKER_TRIAGED = {}
+
+
+def rule_i(ctx, out):
+    """The comparison is sensitive to every component.  are_equals is interpreted (own interpreter over its AST) on pairs of small
+    specifications: a specification and a consistently re-named copy must be equal; the copy with one component changed (a target
+    element, an opcode, swapped operands of a non-commutative operation, an operand, a store's operands, a missing store or
+    dependence, the source stack ...) must not be.  Replaces text matching on the comparison functions: any re-formulation that keeps
+    the verdicts is accepted."""
+    from ..core.interp import ModuleInterp
+    f = ctx.func(f"{V}.are_equals")
+    mi = ModuleInterp(ctx, max_steps=600000)
+    bases = {
+        "arith": _spec([("ADD", ("SUB", "X", "Y"), ("MUL", "X", 5)), ("ISZERO", ("LT", "Y", "Z"))]),
+        "shared": _spec([("ADD", ("MUL", "X", "Y"), ("MUL", "X", "Y")), "X"]),
+        "memory": _spec([("MLOAD", "X")], stores=[("MSTORE", "X", ("ADD", "Y", 1)), ("MSTORE", ("ADD", "X", 32), "Z")], mem_deps=[("MLOAD_0", "MSTORE_0")]),
+        "byte-store": _spec([("SUB", "Y", "X")], stores=[("MSTORE8", "X", "Y")]),
+        "storage": _spec([("SLOAD", "X")], stores=[("SSTORE", "X", ("AND", "Y", 255)), ("SSTORE", "Z", 7)], sto_deps=[("SLOAD_0", "SSTORE_0"), ("SSTORE_0", "SSTORE_1")]),
+        "hash": _spec([("KECCAK256", "X", 64)], stores=[("MSTORE", "X", "Y")], mem_deps=[("MSTORE_0", "KECCAK256_0")]),
+    }
+
+    def verdict(a, b):
+        try:
+            r = mi.call(f, a, b)
+        except Raised:
+            return False          # contained by the caller since the comparison runs under try: counts as "not equal"
+        except Unsupported as e:
+            raise AnalysisError(f"are_equals: cannot evaluate abstractly: {e}")
+        return bool(r[0]) if isinstance(r, tuple) else bool(r)
+    n = 0
+    import copy
+    for name, a in bases.items():
+        for label, b in (("identical", copy.deepcopy(a)), ("renamed", _renamed(a))):
+            n += 1
+            if verdict(copy.deepcopy(a), b):
+                out.ok({"base": name, "pair": label, "verdict": "equal"})
+            else:
+                out.bad(f"checker-rejects-equal:{name}:{label}", f"are_equals answers 'different' for the specification `{name}` and its {label} copy: every "
+                        f"optimized block would be thrown away", where(f))
+        for label, b in _mutations(_renamed(a)):
+            n += 1
+            key = f"checker-accepts:{name}:{label}"
+            if not verdict(copy.deepcopy(a), b):
+                out.ok()
+            elif key in CHECKER_TRIAGED:
+                out.unproven.append({"site": key, "reason": CHECKER_TRIAGED[key]})
+                out.ok()
+            else:
+                out.bad(key, f"are_equals answers 'equal' for the specification `{name}` and a copy whose {label} was changed", where(f),
+                        {"changed": label, "optimized_side": {k: b[k] for k in ("tgt_ws", "storage_dependences", "memory_dependences")},
+                         "records": [f"{r['id']}: {r['outpt_sk']} = {r['disasm']}{r['inpt_sk']}" for r in b["user_instrs"]]})
+    out.samples.append({"pairs_compared": n})
+    if n < 100:
+        raise AnalysisError(f"only {n} specification pairs compared")
+
+
 RULES = [
+    ("C05.i", "the comparison is sensitive to every component of a specification", 100, rule_i),
     ("C05.h", "byte stores take part in the comparison", 4, rule_h),
     ("C05.g", "an unmatched dependence is decided, never skipped", 2, rule_g),
     ("C05.f", "no name-equality shortcut around the structural comparison", 8, rule_f),
     ("C05.e", "a (verdict, reason) pair is never used as a truth value", 15, rule_e),
     ("C05.a", "no opcode conflation inherited from the front-end", 40, rule_a),
     ("C05.b", "commutativity only where the EVM operation is commutative", 12, rule_b),
-    ("C05.c", "an accepting answer needs every component compared", 12, rule_c),
+    ("C05.c", "an accepting answer needs every component compared", 7, rule_c),
     ("C05.d", "the comparison is total (no raise)", 8, rule_d),
 ]
